@@ -186,6 +186,7 @@ def run_history(case, ctx=None):
             os.makedirs(di)
             files = write_jobs(di, ch, "job")
             learn.SCHED.reseed(case["sched"] + i + 1)
+            model_prev = model_in
             r_last = guarded(run_dispatch, files,
                              os.path.join(tmp, f"out{i}"), wf, model_in)
             if r_last[0] != "ok":
@@ -257,13 +258,31 @@ def run_history(case, ctx=None):
             # same model, different diagram: is it the history, or is the
             # learner unstable on this model (C03's subject)?  Learn the
             # whole set once more under another schedule seed.
-            learn.SCHED.reseed(case["sched"] + 4242)
-            r_again = guarded(run_dispatch, files_all,
-                              os.path.join(tmp, "out_all2"), wf)
-            if r_again[0] != "ok" or (
-                    c03.norm_text(r_again[1][0]) != c03.norm_text(text_all)
-                    if bcnt else
-                    c03.equivalent(text_all, r_again[1][0], case["sched"])):
+            # Both routes are run again under further schedule seeds: when
+            # either one also produces the other one's language (or varies
+            # by itself) the difference is not the history's.
+            def same(a, b):
+                if bcnt:
+                    return c03.norm_text(a) == c03.norm_text(b)
+                return not c03.equivalent(a, b, case["sched"])
+            unstable = False
+            for k in range(1, 5):
+                learn.SCHED.reseed(case["sched"] + 4242 * k)
+                r_again = guarded(run_dispatch, files_all,
+                                  os.path.join(tmp, f"out_all_r{k}"), wf)
+                if r_again[0] != "ok" or same(r_again[1][0], text_inc) or \
+                        not same(r_again[1][0], text_all):
+                    unstable = True
+                    break
+                learn.SCHED.reseed(case["sched"] + 4242 * k + 1)
+                r_again = guarded(run_dispatch, files,
+                                  os.path.join(tmp, f"out_last_r{k}"), wf,
+                                  model_prev)
+                if r_again[0] != "ok" or same(r_again[1][0], text_all) or \
+                        not same(r_again[1][0], text_inc):
+                    unstable = True
+                    break
+            if unstable:
                 if ctx:
                     ctx.count("learner_unstable_on_same_model_(C03)")
                 return
